@@ -192,6 +192,14 @@ def run_check(prop, tier, replay=None, label=None):
             n = dict(quick=dict(C12=500, C13=600, C14=250), thorough=dict(C12=8000, C13=10000, C14=2500))[tier][prop]
             scs = [al.scenario(rng, "%s-%d" % (prop, i), prop, big=(tier == "thorough" and i % 3 == 0)) for i in range(n)]
             scs += [al.scenario(rng, "%s-m%d" % (prop, i), "mix") for i in range(n // 4)]
+            if prop == "C14":
+                # one start whose closers all stay blocked for several seconds after every one of them has been invoked: a Close
+                # that stops waiting after some threshold returns while they are still running
+                slow = al.scenario(rng, "C14-slow", "C14")
+                slow["closers"] = [dict(cls="un", ord=0, fail=(j == 1), doc="") for j in range(3)]
+                slow["closeOrder"] = [2, 3, 1]
+                slow["hold"] = 6.5 if tier == "quick" else 16.0
+                scs.append(slow)
         errs = []
         def srt():
             try:
